@@ -40,6 +40,8 @@ pub const CIRCLES_TO_SKIP_FOR_ARC: usize = 3;
 /// )
 static CIRCLE_ART_MAP: Lazy<Vec<(&'static str, Horizontal, f32, f32, Cell)>> =
     Lazy::new(|| {
+        #[cfg(feature = "verif-trace")]
+        let _verif_guard = crate::verif::LazyGuard::new("CIRCLE_ART_MAP");
         vec![
             // CIRCLE_0
             //center 1,0,k, radius = 0.5
@@ -637,6 +639,8 @@ pub struct ArcSpans {
 }
 
 static CIRCLE_MAP: Lazy<Vec<CircleArt>> = Lazy::new(|| {
+    #[cfg(feature = "verif-trace")]
+    let _verif_guard = crate::verif::LazyGuard::new("CIRCLE_MAP");
     Vec::from_iter(CIRCLE_ART_MAP.iter().enumerate().map(
         |(
             ndx,
@@ -655,6 +659,8 @@ static CIRCLE_MAP: Lazy<Vec<CircleArt>> = Lazy::new(|| {
 /// The fragments for each of the circle
 /// Calculate the span and get the group fragments
 static FRAGMENTS_CIRCLE: Lazy<Vec<(Vec<Contacts>, Circle)>> = Lazy::new(|| {
+    #[cfg(feature = "verif-trace")]
+    let _verif_guard = crate::verif::LazyGuard::new("FRAGMENTS_CIRCLE");
     Vec::from_iter(CIRCLE_MAP.iter().map(|circle_art| {
         (
             circle_art_to_group(circle_art.ascii_art),
@@ -666,6 +672,8 @@ static FRAGMENTS_CIRCLE: Lazy<Vec<(Vec<Contacts>, Circle)>> = Lazy::new(|| {
 /// map of circle spans and their radius
 pub static DIAMETER_CIRCLE: Lazy<HashMap<i32, (Point, Span)>> =
     Lazy::new(|| {
+        #[cfg(feature = "verif-trace")]
+        let _verif_guard = crate::verif::LazyGuard::new("DIAMETER_CIRCLE");
         HashMap::from_iter(CIRCLE_MAP.iter().map(|circle_art| {
             let cb = CellBuffer::from(circle_art.ascii_art);
             let mut spans= Vec::<Span>::from(&cb);
@@ -677,6 +685,8 @@ pub static DIAMETER_CIRCLE: Lazy<HashMap<i32, (Point, Span)>> =
 
 /// There is only 1 span per circle, and localized
 pub static CIRCLES_SPAN: Lazy<IndexMap<Circle, Span>> = Lazy::new(|| {
+    #[cfg(feature = "verif-trace")]
+    let _verif_guard = crate::verif::LazyGuard::new("CIRCLES_SPAN");
     IndexMap::from_iter(CIRCLE_MAP.iter().map(|circle_art| {
         let cb = CellBuffer::from(circle_art.ascii_art);
         let mut spans =  Vec::<Span>::from(&cb);
@@ -701,6 +711,8 @@ pub static CIRCLES_SPAN: Lazy<IndexMap<Circle, Span>> = Lazy::new(|| {
 ///
 /// (diameter, quarter arcs)
 pub static QUARTER_ARC_SPAN: Lazy<BTreeMap<i32, ArcSpans>> = Lazy::new(|| {
+    #[cfg(feature = "verif-trace")]
+    let _verif_guard = crate::verif::LazyGuard::new("QUARTER_ARC_SPAN");
     BTreeMap::from_iter(CIRCLE_MAP.iter().skip(CIRCLES_TO_SKIP_FOR_ARC).map(
         |circle_art| {
             let span = circle_art_to_span(circle_art.ascii_art);
@@ -779,6 +791,8 @@ pub static QUARTER_ARC_SPAN: Lazy<BTreeMap<i32, ArcSpans>> = Lazy::new(|| {
 });
 
 pub static HALF_ARC_SPAN: Lazy<BTreeMap<i32, ArcSpans>> = Lazy::new(|| {
+    #[cfg(feature = "verif-trace")]
+    let _verif_guard = crate::verif::LazyGuard::new("HALF_ARC_SPAN");
     BTreeMap::from_iter(CIRCLE_MAP.iter().skip(CIRCLES_TO_SKIP_FOR_ARC).map(
         |circle_art| {
             let span = circle_art_to_span(circle_art.ascii_art);
@@ -878,6 +892,8 @@ pub static HALF_ARC_SPAN: Lazy<BTreeMap<i32, ArcSpans>> = Lazy::new(|| {
 
 pub static THREE_QUARTERS_ARC_SPAN: Lazy<BTreeMap<i32, ArcSpans>> =
     Lazy::new(|| {
+        #[cfg(feature = "verif-trace")]
+        let _verif_guard = crate::verif::LazyGuard::new("THREE_QUARTERS_ARC_SPAN");
         BTreeMap::from_iter(
             CIRCLE_MAP
                 .iter()
@@ -975,6 +991,8 @@ pub static THREE_QUARTERS_ARC_SPAN: Lazy<BTreeMap<i32, ArcSpans>> =
 pub static FLATTENED_QUARTER_ARC_SPAN: Lazy<
     BTreeMap<DiameterArc, (Arc, Span)>,
 > = Lazy::new(|| {
+    #[cfg(feature = "verif-trace")]
+    let _verif_guard = crate::verif::LazyGuard::new("FLATTENED_QUARTER_ARC_SPAN");
     BTreeMap::from_iter(QUARTER_ARC_SPAN.iter().flat_map(
         |(diameter, arc_spans)| {
             arc_spans.arc_spans.iter().enumerate().map(
@@ -994,6 +1012,8 @@ pub static FLATTENED_QUARTER_ARC_SPAN: Lazy<
 
 pub static FLATTENED_HALF_ARC_SPAN: Lazy<BTreeMap<DiameterArc, (Arc, Span)>> =
     Lazy::new(|| {
+        #[cfg(feature = "verif-trace")]
+        let _verif_guard = crate::verif::LazyGuard::new("FLATTENED_HALF_ARC_SPAN");
         BTreeMap::from_iter(HALF_ARC_SPAN.iter().flat_map(
             |(diameter, arc_spans)| {
                 arc_spans.arc_spans.iter().enumerate().map(
@@ -1014,6 +1034,8 @@ pub static FLATTENED_HALF_ARC_SPAN: Lazy<BTreeMap<DiameterArc, (Arc, Span)>> =
 pub static FLATTENED_THREE_QUARTERS_ARC_SPAN: Lazy<
     BTreeMap<DiameterArc, (Arc, Span)>,
 > = Lazy::new(|| {
+    #[cfg(feature = "verif-trace")]
+    let _verif_guard = crate::verif::LazyGuard::new("FLATTENED_THREE_QUARTERS_ARC_SPAN");
     BTreeMap::from_iter(THREE_QUARTERS_ARC_SPAN.iter().flat_map(
         |(diameter, arc_spans)| {
             arc_spans.arc_spans.iter().enumerate().map(
@@ -1181,6 +1203,38 @@ fn is_subset_of<T: PartialEq>(
         }
     }
     (matched == subset.len(), unmatched)
+}
+
+/// verification hook: the derived catalogue tables as JSON, for an entry-by-entry
+/// comparison with the specification's catalogue
+#[cfg(feature = "verif-trace")]
+pub fn verif_tables_json() -> String {
+    use crate::verif::{json_fragment, json_list, json_span};
+    let circles = json_list(CIRCLES_SPAN.iter(), |(circle, span)| {
+        format!(
+            "{{\"f\":{},\"span\":{}}}",
+            json_fragment(&circle.clone().into()),
+            json_span(span)
+        )
+    });
+    let arcs = |table: &BTreeMap<DiameterArc, (Arc, Span)>| {
+        json_list(table.iter(), |(key, (arc, span))| {
+            format!(
+                "{{\"diameter\":{},\"index\":{},\"f\":{},\"span\":{}}}",
+                key.diameter,
+                key.arc,
+                json_fragment(&arc.clone().into()),
+                json_span(span)
+            )
+        })
+    };
+    format!(
+        "{{\"circles\":{},\"quarter\":{},\"half\":{},\"three_quarters\":{}}}",
+        circles,
+        arcs(&FLATTENED_QUARTER_ARC_SPAN),
+        arcs(&FLATTENED_HALF_ARC_SPAN),
+        arcs(&FLATTENED_THREE_QUARTERS_ARC_SPAN)
+    )
 }
 
 #[cfg(test)]
